@@ -380,7 +380,7 @@ Proof.
   assert (KEEP : forall id pc', (id < length (pools s))%nat -> w_pc (watcher_of s id) <> WTop ->
                  WF (set_watcher s id {| w_pc := pc'; w_pool := w_pool (watcher_of s id) |})).
   { intros id pc' Hid Hpc. apply wf_set_watcher; auto. cbn. intros _. apply W; assumption. }
-  destruct ev; cbn [r_apply]; cbn in He.
+  destruct ev; cbn [r_apply]; cbn [r_enabled] in He.
   - (* WLoad *) apply andb_prop in He. destruct He as [Hr _].
     destruct (r_state s =? st_hr); [exact H|]. apply wf_set_watcher; auto. cbn. intros _. split; [apply P; auto | left; reflexivity].
   - (* WakeClose *) apply andb_prop in He. destruct He as [He _]. apply andb_prop in He. destruct He as [Hr Hpc].
@@ -435,10 +435,11 @@ Proof.
     assert (S1 : WF s1 /\ pools s1 = pools s /\ watchers s1 = watchers s /\ r_epoch s1 = e /\
                  (forall x, oepoch (objs s1) x = oepoch (objs s) x)).
     { subst s1. destruct (r_state s =? st_hr) eqn:Hst.
-      - repeat split; auto. cbn in Hstale. apply negb_false_iff in Hstale. apply Z.eqb_eq in Hstale. exact Hstale.
-      - repeat split; auto.
+      - split; [exact H|]. split; [reflexivity|]. split; [reflexivity|]. split; [|reflexivity].
+        cbn in Hstale. apply negb_false_iff in Hstale. apply Z.eqb_eq in Hstale. exact Hstale.
+      - split; [|split; [reflexivity|split; [reflexivity|split; [reflexivity|]]]].
         + eapply wf_same_meta with (s := s); cbn; auto. intro x. apply kill_reserved_meta.
-        + intro x. apply kill_reserved_meta. }
+        + intro x. cbn. apply kill_reserved_meta. }
     destruct S1 as [H1 [Hp1 [Hw1 [He1 Hep1]]]]. clearbody s1.
     destruct (nth_error (reserve s1) i) as [[o|]|]; try exact H1;
       (destruct ok; cbn [negb]; [|exact H1]).
